@@ -393,15 +393,19 @@ Lemma crun_correct local st kill :
 Proof.
   intros Hf Hinv. cbv zeta.
   destruct (run_step_correct24 local st Hf Hinv) as (Hok & Hi & Hkp).
-  unfold crun, cstep_okb. destruct kill as [n|].
-  - match goal with |- context [if ?b then _ else _] => destruct b eqn:En end.
+  unfold crun, cstep_okb. cbv zeta. destruct kill as [n|].
+  - remember ((1 <=? n) && (n <=? N.of_nat (length (run_kp all_fixes cfg local (resolve local st))))) as b eqn:Eb.
+    destruct b.
     + cbn [co_killed co_obs o_local]. split; [reflexivity|].
-      match goal with |- context [rev ?p] => destruct (rev p) as [|[lab stt] r] eqn:Er end.
+      remember (firstn (N.to_nat n) (run_kp all_fixes cfg local (resolve local st))) as passed eqn:Ep.
+      match goal with |- context [match ?r with _ => _ end] => destruct r as [|[lab stt] r'] eqn:Er end.
       * apply inv24_hw_after; [exact (proj1 (proj2 (proj2 Hf))) | exact Hinv].
       * apply (Hkp lab stt).
-        match type of Er with rev ?p = _ => assert (Hin : In (lab, stt) p) end.
-        { apply in_rev. rewrite Er. left. reflexivity. }
-        eapply firstn_In'. exact Hin.
+        assert (Hin : In (lab, stt) passed).
+        { apply in_rev.
+          assert (Hx : In (lab, stt) ((lab, stt) :: r')) by (left; reflexivity).
+          exact (eq_ind_r (fun z => In (lab, stt) z) Hx Er). }
+        rewrite Ep in Hin. eapply firstn_In'. exact Hin.
     + cbn [co_killed co_obs]. split; assumption.
   - cbn [co_killed co_obs]. split; assumption.
 Qed.
@@ -451,4 +455,85 @@ Proof.
   unfold honest in Hh. apply andb_prop in Hh as [Hh Hm]. apply andb_prop in Hh as [Hh Hs].
   apply andb_prop in Hh as [Hw Hg].
   apply (crun_steps_okb g cfg Hw sts [] None crash); try assumption. exact I.
+Qed.
+
+(* ---- the copy on disk after a sequence of runs, one of which may have been killed ---- *)
+
+Fixpoint clocal_after (cfg : config) (local : option lstate) (sts : list step) (crash : option (N * N))
+  : option lstate :=
+  match sts with
+  | [] => local
+  | st :: t =>
+      let here := match crash with Some (c, n) => if c =? 0 then Some n else None | None => None end in
+      let later := match crash with Some (c, n) => if c =? 0 then None else Some (c - 1, n) | None => None end in
+      clocal_after cfg (o_local (co_obs (crun cfg local st here))) t later
+  end.
+
+Fixpoint hw_fold (hw : list (N * N)) (sts : list step) : list (N * N) :=
+  match sts with [] => hw | st :: t => hw_fold (hw_after hw st) t end.
+
+Lemma monotone_app hw a b : monotone hw (a ++ b) = true -> monotone hw a = true /\ monotone (hw_fold hw a) b = true.
+Proof.
+  revert hw. induction a as [|st t IH]; intros hw H; cbn [app hw_fold] in *; [split; [reflexivity | exact H]|].
+  destruct (monotone_here _ _ _ H) as [H1 H2]. destruct (IH _ H2) as [H3 H4]. split; [|exact H4].
+  cbn [monotone]. unfold mono_here, hw_after in *. destruct (s_notify st) as [| | |nf]; try exact H3.
+  destruct (hw_lookup hw (nf_session nf)) as [m|]; [|exact H3].
+  apply andb_true_intro. split; [apply N.leb_le; apply H1; reflexivity | exact H3].
+Qed.
+
+Lemma clocal_after_inv g cfg : world_ok g = true -> forall sts hw local crash,
+  genuine (world_of g) sts = true -> forallb (step_honest g) sts = true -> monotone hw sts = true ->
+  inv24 g hw local -> inv24 g (hw_fold hw sts) (clocal_after cfg local sts crash).
+Proof.
+  intros Hw. induction sts as [|st t IH]; intros hw local crash Hg Hh Hm Hinv; [exact Hinv|].
+  cbn [genuine forallb] in Hg, Hh. apply andb_prop in Hg as [Hg1 Hg2]. apply andb_prop in Hh as [Hh1 Hh2].
+  destruct (monotone_here _ _ _ Hm) as [Hm1 Hm2].
+  cbn [clocal_after hw_fold].
+  set (here := match crash with Some (c, n) => if c =? 0 then Some n else None | None => None end).
+  destruct (crun_correct g cfg hw Hw local st here (step_honest_facts g hw st Hg1 Hh1 Hm1) Hinv) as [_ Hi].
+  apply IH; assumption.
+Qed.
+
+(* The statement of the property: whatever run of an earlier sequence was killed at whatever kill point, a later
+   run that completes and is reported as updated leaves exactly the server's snapshot at the notified serial. *)
+Theorem updated_after_kill_exact g cfg pre st crash :
+  honest g (pre ++ [st]) = true ->
+  let local := clocal_after cfg None pre crash in
+  let o := run_step all_fixes cfg local (resolve local st) in
+  o_result o = RES_updated ->
+  exists l nf, s_notify st = NOk nf /\ o_local o = Some l /\
+    l_session l = nf_session nf /\ l_serial l = nf_serial nf /\
+    truth (world_of g) (nf_session nf) (nf_serial nf) = Some (l_content l).
+Proof.
+  intros Hh local o Hr. unfold honest in Hh.
+  apply andb_prop in Hh as [Hh Hm]. apply andb_prop in Hh as [Hh Hs]. apply andb_prop in Hh as [Hw Hg].
+  rewrite genuine_app in Hg. apply andb_prop in Hg as [Hg1 Hg2].
+  rewrite forallb_app in Hs. apply andb_prop in Hs as [Hs1 Hs2].
+  destruct (monotone_app _ _ _ Hm) as [Hm1 Hm2].
+  pose proof (clocal_after_inv g cfg Hw pre [] None crash Hg1 Hs1 Hm1 I) as Hinv. fold local in Hinv.
+  cbn [genuine forallb] in Hg2, Hs2. rewrite andb_true_r in Hg2, Hs2.
+  destruct (monotone_here _ _ _ Hm2) as [Hm3 _].
+  pose proof (step_honest_facts g _ st Hg2 Hs2 Hm3) as Hf.
+  destruct (run_step_correct24 g cfg _ Hw local st Hf Hinv) as (Hok & _ & _). fold o in Hok.
+  unfold step_okb in Hok. apply andb_prop in Hok as [_ Hok]. rewrite Hr in Hok.
+  replace (RES_updated =? RES_updated) with true in Hok by reflexivity.
+  apply andb_prop in Hok as [_ Hok].
+  destruct (o_local o) as [l|] eqn:El; [|discriminate].
+  destruct Hf as (_ & _ & _ & Hn).
+  assert (Hres : s_notify (resolve local st) = s_notify st \/
+                 exists p nf, local = Some p /\ s_notify st = NOk nf /\ s_notify (resolve local st) = N304 /\
+                              l_session p = nf_session nf /\ l_serial p = nf_serial nf).
+  { unfold resolve. destruct (s_notify st) as [| | |nf] eqn:En; try (left; destruct local; exact En).
+    destruct local as [p|]; [|left; exact En].
+    destruct ((l_session p =? nf_session nf) && (l_serial p =? nf_serial nf)) eqn:Em; [|left; exact En].
+    apply andb_prop in Em as [E1 E2]. apply N.eqb_eq in E1, E2.
+    right. exists p, nf. repeat split; assumption. }
+  destruct Hres as [Hres|(p & nf & Hl & En & Hres & E1 & E2)]; rewrite Hres in Hok.
+  - destruct (s_notify st) as [| | |nf] eqn:En; try contradiction; try discriminate.
+    exists l, nf. apply andb_prop in Hok as [Hok Ht]. apply andb_prop in Hok as [H1 H2].
+    apply N.eqb_eq in H1, H2. apply is_truth_spec in Ht. repeat split; assumption.
+  - exists l, nf. rewrite Hl in Hok. apply andb_prop in Hok as [Hsame Ht].
+    unfold lstate_same in Hsame. apply andb_prop in Hsame as [Hsame _]. apply andb_prop in Hsame as [H1 H2].
+    apply N.eqb_eq in H1, H2. apply is_truth_spec in Ht.
+    repeat split; try congruence.
 Qed.
